@@ -214,7 +214,73 @@ def s04_stubs(ctx):
     return res
 
 
-STREAMS = [s04_invalid, s04_valid, s04_stubs]
+def s04_generated(ctx):
+    """translator validation: the REGENERATED filter_non_unique_traces (compiled into gen_c04) vs the real function"""
+    import_fractopo()
+    import math as _m
+
+    import geopandas as gpd
+    from shapely import wkt as _wkt
+    from shapely.geometry import LineString
+    from shapely.wkt import dumps
+
+    from fractopo.branches_and_nodes import filter_non_unique_traces
+
+    res = StreamResult("S04-generated", rule="regenerated filter_non_unique_traces (Lean, compiled) vs the real function: 2..9 traces with exact duplicates, reversed copies, copies "
+                       "shifted by 0.3 / 3 x the rounding step and same-bounds mirror images, thresholds 0.1 / 0.01 / 0.001; the keys are computed with the source's own "
+                       "`dumps(geom, rounding_precision=int(-log10(snap)))`; compared: which rows survive; non-trivial = a row is dropped")
+    if ctx.gen is None:
+        res.note = "gen_c04 not built (a generated module is broken): skipped"
+        res.skipped["generated_driver_not_built"] = 1
+        return res
+    rng = rng_for(ctx.seed, "S04g")
+    cases, reqs = [], []
+    for _ in range(budget(ctx.tier, 300, 5000)):
+        t = rng.choice([0.1, 0.01, 0.001])
+        step = 10.0 ** -int(-_m.log10(t))
+        base = []
+        for _ in range(rng.randint(1, 4)):
+            k = rng.randint(2, 3)
+            base.append([(rng.randint(-40, 40) / 4, rng.randint(-40, 40) / 4) for _ in range(k)])
+        base = [b for b in base if len(set(b)) == len(b)]
+        if not base:
+            continue
+        trs = list(base)
+        for _ in range(rng.randint(1, 5)):
+            b = rng.choice(base)
+            mode = rng.choice(["dup", "rev", "near", "far", "mirror"])
+            if mode == "dup":
+                trs.append(list(b))
+            elif mode == "rev":
+                trs.append(list(reversed(b)))
+            elif mode == "near":
+                trs.append([(x + 0.3 * step, y) for x, y in b])
+            elif mode == "far":
+                trs.append([(x + 3.0 * step, y) for x, y in b])
+            else:
+                ys = [y for _, y in b]
+                trs.append([(x, min(ys) + max(ys) - y) for x, y in b])
+        rng.shuffle(trs)
+        geoms = [LineString(tr) for tr in trs]
+        keys = [dumps(g, rounding_precision=int(-_m.log10(t))) for g in geoms]
+        cases.append((t, geoms))
+        reqs.append("gdedupe keys=" + ";".join(k.replace(" ", "_") for k in keys))
+    resps = ctx.gen.parallel(reqs)
+    for (t, geoms), req, resp in zip(cases, reqs, resps):
+        res.evaluations += 1
+        out = filter_non_unique_traces(gpd.GeoSeries(geoms), t)
+        want = [int(i) for i in out.index]
+        r = parse_resp(resp)
+        got = [int(x) for x in r.get("kept", "").split(",") if x]
+        res.nontrivial += int(len(want) < len(geoms))
+        if got != want:
+            res.disagreements.append(Disagreement("S04-generated", {"stream": "S04-generated", "request": req[:2000], "t": t}, got, want, None,
+                                                  "regenerated filter_non_unique_traces (Lean) and the Python function keep different rows"))
+    res.samples = [{"request": reqs[0][:200], "response": resps[0][:100]}] if reqs else []
+    return res
+
+
+STREAMS = [s04_invalid, s04_valid, s04_stubs, s04_generated]
 
 
 def replay_finding(ctx, k):
@@ -227,6 +293,9 @@ def replay_finding(ctx, k):
 
 
 def replay(ctx, stream, case):
+    if stream == "S04-generated":
+        r = s04_generated(ctx)
+        return r.disagreements[0] if r.disagreements else None
     res = StreamResult("replay")
     c = dict(case)
     c["traces"] = [[tuple(p) for p in l] for l in case["traces"]]
